@@ -1,5 +1,6 @@
 """C14 - malformed input is rejected with an error, never with a crash (decoder part)."""
 from vf.parts import kani_part
+from vf.mirxparts import demux_drop_part
 from props.c08 import APPENDS
 
 EXPLANATION = ('Kani: each packet decoder is run on b[..n] for an arbitrary byte array b and symbolic n; Kani\'s panic/overflow/index/unwrap checks '
@@ -18,14 +19,15 @@ def run(ctx):
         outside='inputs longer than the bounds (the decoders have no length-dependent behaviour beyond their fixed header, the DNS/DHCP string loops and '
                 'the rdata loop); the NDL text parser (nom/HashMap/format!/file I/O: no encoding within reach); "the simulation keeps running" (tokio runtime)',
         jobs=8, timeout=1500 if ctx.quick else 3000)
+    yield demux_drop_part(ctx)
 
 
 MANIFEST = {
-    'engine': 'kani',
-    'technique': 'bounded model checking (Kani/CBMC, SAT): every decoder on an arbitrary byte array of symbolic length, panic-freedom as the assertion',
+    'engine': 'kani + mirx',
+    'technique': 'Kani/CBMC (SAT): every decoder on an arbitrary byte array of symbolic length, panic-freedom as the assertion; mirx symbolic execution of the real Udp::demux / Ipv4::demux on arbitrary bytes (drop at layer)',
     'level_text': 'Every byte string up to the stated length (all truncations, all field mutations, extreme length fields are particular values of the '
                   'arbitrary array) is shown by SAT to produce Ok or an Err value - never a panic, overflow, index or unwrap failure - in the six packet decoders.',
-    'level_note': 'Only the packet-decoder half of the statement is decided. NOT covered: the NDL text parser (nom combinators, HashMap/RandomState, '
-                  'format!, file I/O - neither Kani nor the MIR executor can encode it) and drop-at-layer in the async demux chain beyond what the mirx '
-                  'part (when present in the evidence) decides. Trusts Kani/CBMC.',
+    'level_note': 'Decided: the six packet decoders (Kani) and drop-at-layer for the synchronous Udp::demux and Ipv4::demux (mirx: arbitrary bytes => an error is returned, nothing is '
+                  'delivered, no binding changes, no panic; a frame is delivered only if its header is well-formed). NOT covered: the NDL text parser (nom combinators, HashMap/RandomState, '
+                  'format!, file I/O - neither Kani nor the MIR executor can encode it), TCP/ARP demux (async environment) and "the simulation keeps running". Trusts Kani/CBMC, mirx, z3.',
 }
